@@ -29,7 +29,7 @@ def gen_history(r):
     kc = "map" if r.coin() else "list"
     kinds = ("value", "key") if kc == "map" else ("value", "index")
     mk = G.map_doc if kc == "map" else G.list_doc
-    probes = [mk(r, 2) for _ in range(3)]
+    probes = [G.cap(mk(r, 2), 130) for _ in range(3)]  # (every member is judged on every probe after every step)
     if r.pct() < 3:
         # one probe with several hundred items (size thresholds)
         n_items = r.choice([257, 300])
@@ -258,7 +258,7 @@ def machine_history(seed, n, record):
             r = G.R(t)
             mk = G.map_doc if kc == "map" else G.list_doc
             self.kinds = ("value", "key") if kc == "map" else ("value", "index")
-            self.h = Hist(kc, [mk(r, 2) for _ in range(3)])
+            self.h = Hist(kc, [G.cap(mk(r, 2), 130) for _ in range(3)])
 
         def size(self):
             return len(self.h.pool)
